@@ -43,13 +43,13 @@ def tuple_elem(e):
 
 
 def decoded_offset(e):
-    """unwrap(map(try_into(X.1), from_be_bytes)) -> X (the entry-producing expression)"""
+    """`u64::from_be_bytes(<value part of entry X>.try_into().unwrap())` -> X (the entry-producing
+    expression); whether the conversion is written with map(), a closure, a helper or a match"""
     e = e.strip()
-    if is_call(e, "Result::<T, E>::unwrap") and is_call(e.a[0], "Result::<T, E>::map"):
-        m = e.a[0].strip()
-        f = m.a[1]
-        if f.k == "fn" and f.x["path"].endswith("u64>::from_be_bytes") and is_call(m.a[0], "TryInto<U>>::try_into"):
-            src = m.a[0].strip().a[0].strip()
+    if e.k == "call" and e.x["path"].endswith("u64>::from_be_bytes") and e.a:
+        t = e.a[0].strip()
+        if t.k == "call" and t.x["path"].endswith("TryInto<U>>::try_into"):
+            src = t.a[0].strip()
             if src.k == "field" and src.x["name"] == "1":
                 inner = unwrap_payload(src.a[0], "Some")
                 if inner is not None:
@@ -367,21 +367,34 @@ def r5_wrappers(ck, F, R="C03-R5"):
 def r6_current(ck, F):
     R = "C03-R6"
     cur = F.body(A("rc_prefix") + "current")
-    e = cur.expr_at_return()
-    ok = is_call(e, "Option::<T>::and_then") and is_self_field(e.strip().a[0], "current_cursor") and e.strip().a[1].k == "fn" and e.strip().a[1].x["path"].endswith(A("bc_current"))
-    ck.ob(R, "current-reads-block-cursor", ok, f"ReaderCursor::current = {e.show()[:140]}", cur)
+    alts = [a for a in return_alts(cur) if not (a.k == "agg" and a.x.get("variant") == "None")]
+    ok = len(alts) == 1 and alts[0].k == "call" and alts[0].x["path"].endswith(A("bc_current"))
+    if ok:
+        src = unwrap_payload(alts[0].a[0], "Some")
+        ok = src is not None and is_self_field(src, "current_cursor")
+    ck.ob(R, "current-reads-block-cursor", ok, f"ReaderCursor::current = {cur.expr_at_return().show()[:140]} (the block cursor's current entry, or None when there is no block cursor)", cur)
     bcur = F.body(A("bc_current"))
-    e = bcur.expr_at_return()
-    ok = is_call(e, "Option::<T>::and_then") and is_self_field(e.strip().a[0], "current_offset")
-    ck.ob(R, "block-current-reads-offset", ok, f"BlockCursor::current = {e.show()[:140]}", bcur)
-    cl = F.closures_of(A("bc_current"))
-    ok = False
-    if cl:
-        top = [c for c in cl if c.path.endswith("current::{closure#0}")]
-        if top:
-            ents = calls(top[0], A("block_entry_at"))
-            ok = len(ents) == 1 and top[0].arg_exprs(ents[0][0])[1].strip().k == "arg"
-    ck.ob(R, "block-current-decodes-at-offset", ok, "BlockCursor::current decodes the entry at the stored offset (entry_at(off))", bcur)
+    alts = [a for a in return_alts(bcur) if not (a.k == "agg" and a.x.get("variant") == "None")]
+    ok = len(alts) == 1 and alts[0].k == "agg" and alts[0].x.get("variant") == "Some"
+    ent = None
+    if ok:
+        tup = alts[0].a[0]
+        ok = tup.k == "agg" and len(tup.a) == 2
+        if ok:
+            parts = []
+            for i, comp in enumerate(tup.a):
+                c = comp.strip()
+                okc = c.k == "field" and c.x["idx"] == i
+                src = unwrap_payload(c.a[0], "Some") if okc else None
+                parts.append(src.strip() if src is not None else None)
+            ok = all(p is not None and p.k == "call" and p.x["path"].endswith(A("block_entry_at")) for p in parts) and parts[0].x.get("site") == parts[1].x.get("site")
+            ent = parts[0] if ok else None
+    ck.ob(R, "block-current-reads-offset", ok, f"BlockCursor::current = Some((key, value)) of one decoded entry, or None ({bcur.expr_at_return().show()[:100]})", bcur)
+    okd = False
+    if ent is not None:
+        off = unwrap_payload(ent.a[1], "Some")
+        okd = off is not None and is_self_field(off, "current_offset") and is_self_field(ent.a[0], "block")
+    ck.ob(R, "block-current-decodes-at-offset", okd, "BlockCursor::current decodes the entry at the stored offset (entry_at(current_offset))", bcur)
     # every in-block move returns self.current() (or delegates to a move that does)
     for fn in ("bc_first", "bc_last", "bc_next", "bc_prev", "bc_le"):
         b = F.body(A(fn))
